@@ -27,7 +27,8 @@ KeyNames == <<
 
 Keys == { KeyNames[i] : i \in 1..Len(KeyNames) }
 
-KeyIndex(k) == (CHOOSE i \in 1..Len(KeyNames) : KeyNames[i] = k) - 1   \* 0-based, as `k as u8`
+KeyIndexTable == [k \in Keys |-> (CHOOSE i \in 1..Len(KeyNames) : KeyNames[i] = k) - 1]
+KeyIndex(k) == KeyIndexTable[k]                  \* 0-based, as `k as u8` (tabulated once)
 KeyAt(i) == KeyNames[i + 1]
 
 (* wire form of DecodedKey: Unicode(c) = code point >= 0; RawKey(k) = -(1+index) *)
